@@ -21,7 +21,7 @@ props.prop(
     not_decided='rounding, out-of-range handling, wildcard (AnyScalar) semantics, the link translation itself',
     assumptions=['cache_id is None => no cache access (checked: every cache store is under that test)'])
 props.also('C16',
-           'hit condition, stored key and eviction read through local aliases of the cache record; accumulation of the invalid mask on every path (CFG); shared view rule of the pixel-aligned reader (C15.d)')
+           'hit condition, stored key and eviction read through local aliases of the cache record; accumulation of the invalid mask on every path (CFG); shared view rule of the pixel-aligned reader (C15.d); that translate_pixel collects values and dimensions of every input of a link inside its loop')
 
 FRB = 'glue.core.fixed_resolution_buffer.compute_fixed_resolution_buffer'
 
